@@ -14,6 +14,7 @@ import (
 	"encoding/binary"
 	"fmt"
 	"net"
+	"os"
 	"runtime"
 	"sync/atomic"
 	"testing"
@@ -33,10 +34,17 @@ import (
 )
 
 func TestWorker(t *testing.T) {
+	// One run at a time, stepped from quiescent point to quiescent point: nothing is gained from
+	// several Ps, and idle Ps cost a lot on a loaded machine. The event logs are identical for
+	// GOMAXPROCS 1 and 16 (set GOMAXPROCS explicitly to override).
+	if os.Getenv("GOMAXPROCS") == "" {
+		runtime.GOMAXPROCS(1)
+	}
 	core.Main(t, core.Engine{Name: "gwsim", Campaigns: map[string]core.RunFunc{
 		"C41/clean":   func(r *core.Run) { run(r, modeClean) },
 		"C41/faulty":  func(r *core.Run) { run(r, modeFaulty) },
 		"C41/corrupt": func(r *core.Run) { run(r, modeCorrupt) },
+		"C41/collide": func(r *core.Run) { run(r, modeCollide) },
 	}})
 }
 
@@ -46,6 +54,7 @@ const (
 	modeClean   mode = iota // no loss / duplication / reordering / corruption; stalls, sizes, MTUs, path changes
 	modeFaulty              // frame drop / dup / reorder / delay, send errors, tunnel errors, path changes
 	modeCorrupt             // modeFaulty plus truncation, bit flips and garbage frames
+	modeCollide             // no network faults at all; path changes at instants that give the new sender the stream id of an earlier one
 )
 
 const (
@@ -96,10 +105,15 @@ type sim struct {
 	anyTaint   bool
 	strictOnly int // faulty modes: serial of the stream the clean oracle applies to (tail), else -1
 	sizeBias   int
+	single     bool // the run has one stream only (no path operations)
+	collided   bool // campaign collide: two senders were given the same stream id
 	mtuBias    int
 }
 
 func (s *sim) now() time.Duration { return time.Since(s.t0) }
+
+// faultFree: the campaign injects no network fault at all.
+func (s *sim) faultFree() bool { return s.mode == modeClean || s.mode == modeCollide }
 
 // ---- construction ----
 
@@ -190,20 +204,38 @@ func (s *sim) start() {
 	// Find the smallest path MTU the sending gateway accepts for this address/path configuration
 	// by asking it (a throw-away session on the same connection), not by repeating its arithmetic.
 	probe := &dataplane.Session{SessionID: s.sessID, GatewayAddr: gw, DataPlaneConn: s.nw}
-	s.minMTU = -1
-	for m := 60; m < 600; m++ {
+	accepts := func(m int) bool {
 		var err error
 		if s.guard("Session.SetPaths", func() { err = probe.SetPaths([]snet.Path{s.mkPath(9999, m)}) }) {
+			return false
+		}
+		return err == nil
+	}
+	// assumption: acceptance is monotonic in the path MTU (re-checked below for the neighbours)
+	lo, hi := 1, 64 // lo rejected, hi accepted (once the first loop ends)
+	for !accepts(hi) {
+		if r.Failed() {
 			return
 		}
-		if err == nil {
-			s.minMTU = m
-			break
+		lo, hi = hi, hi*2
+		if hi > 65535 {
+			panic(core.InfraError{Msg: "no path MTU accepted"})
 		}
 	}
-	if s.minMTU < 0 {
-		panic(core.InfraError{Msg: "no path MTU below 600 accepted"})
+	for hi-lo > 1 {
+		if mid := (lo + hi) / 2; accepts(mid) {
+			hi = mid
+		} else {
+			lo = mid
+		}
+		if r.Failed() {
+			return
+		}
 	}
+	if accepts(hi-1) || !accepts(hi) || !accepts(hi+1) {
+		panic(core.InfraError{Msg: "acceptance of path MTUs is not monotonic"})
+	}
+	s.minMTU = hi
 	probe.Close()
 	synctest.Wait()
 	r.Logf("config local-v6=%v gw-v6=%v rawpath=%d sess=%d min-path-mtu=%d", locV6, gwV6, s.rawLen, s.sessID, s.minMTU)
@@ -216,11 +248,19 @@ func (s *sim) newStream(delta int) bool {
 	r := s.r
 	// The sender derives the stream id from the clock (low 16 bits of the nanosecond count): two
 	// senders created at colliding instants would share a reassembly queue. Assumption: distinct.
-	for s.usedSID[time.Now().UnixNano()&0xffff] {
-		time.Sleep(time.Nanosecond)
+	serial := len(s.strs)
+	if s.mode == modeCollide && serial > 0 && r.FaultChance("stream-id.collision", 1, 2) {
+		// wait (< 66 us) for the next instant whose nanosecond count agrees in the low 16 bits with
+		// the instant at which the sender of an earlier stream of this session was created
+		prev := s.strs[r.Choice("collide-with", serial)]
+		time.Sleep(time.Duration((prev.born - time.Now().UnixNano()) & 0xffff))
+		r.Logf("%v path change at an instant colliding with stream %d", s.now(), prev.serial)
+	} else {
+		for s.usedSID[time.Now().UnixNano()&0xffff] {
+			time.Sleep(time.Nanosecond)
+		}
 	}
 	s.usedSID[time.Now().UnixNano()&0xffff] = true
-	serial := len(s.strs)
 	mtu := s.minMTU + delta
 	if mtu > 65535 {
 		mtu = 65535
@@ -236,7 +276,7 @@ func (s *sim) newStream(delta int) bool {
 	if s.cur >= 0 {
 		s.strs[s.cur].closed = true
 	}
-	st := &stream{serial: serial, pathMTU: mtu, capEst: 41 + mtu - s.minMTU, sid: -1}
+	st := &stream{serial: serial, pathMTU: mtu, capEst: 41 + mtu - s.minMTU, sid: -1, born: time.Now().UnixNano()}
 	s.strs = append(s.strs, st)
 	s.cur = serial
 	s.curPath = p
@@ -370,7 +410,7 @@ func (s *sim) writePacket() bool {
 	id := len(s.pkts)
 	capEst := 1400
 	if s.cur >= 0 {
-		capEst = s.strs[s.cur].capEst
+		capEst = max(s.strs[s.cur].capEst, s.strs[s.cur].maxLen-hdrLen)
 	}
 	v6 := r.Choice("ipv6", 2) == 1
 	size := s.drawSize(v6, capEst)
@@ -480,9 +520,19 @@ func (s *sim) handOver(data []byte, what string) bool {
 		panic(core.InfraError{Msg: "ingress server is not waiting in ReadFrom"})
 	}
 	if len(data) >= hdrLen && data[0] == 0 {
-		s.keys[uint32(data[1])<<20|binary.BigEndian.Uint32(data[4:8])&0xfffff] = true
-		s.r.Logf("%v D %s sess=%d stream-id=%x seq=%d idx=%d len=%d", s.now(), what, data[1],
-			binary.BigEndian.Uint32(data[4:8]), binary.BigEndian.Uint64(data[8:16]), binary.BigEndian.Uint16(data[2:4]), len(data))
+		sid := binary.BigEndian.Uint32(data[4:8]) & 0xfffff
+		s.keys[uint32(data[1])<<20|sid] = true
+		// the log names the stream by the serial of the first sender seen with that id, not by the
+		// id itself (which is whatever the sending gateway chose)
+		of := "?"
+		for _, st := range s.strs {
+			if st.sid == int(sid) {
+				of = fmt.Sprint(st.serial)
+				break
+			}
+		}
+		s.r.Logf("%v D %s sess=%d stream-of=%s seq=%d idx=%d len=%d", s.now(), what, data[1], of,
+			binary.BigEndian.Uint64(data[8:16]), binary.BigEndian.Uint16(data[2:4]), len(data))
 	} else {
 		s.r.Logf("%v D %s malformed len=%d", s.now(), what, len(data))
 	}
@@ -544,8 +594,14 @@ func (s *sim) judgeFrame(pw *pendingWrite) {
 		return
 	}
 	for _, o := range s.strs {
-		if o != st && o.sid == st.sid {
-			r.Ambiguous = true // stream id collision between two senders of one run (excluded by assumption)
+		if o != st && o.sid == st.sid && !s.collided {
+			if s.mode == modeCollide {
+				s.collided = true // from here on the receiver cannot tell the two streams apart
+				r.Probe("two-streams-with-one-stream-id")
+				r.Logf("%v streams %d and %d share a stream id", s.now(), o.serial, st.serial)
+			} else {
+				r.Ambiguous = true // excluded by assumption in the other campaigns
+			}
 		}
 	}
 	st.nframes++
@@ -642,6 +698,17 @@ func (s *sim) judgeEmitted(em []byte) {
 			r.Logf("%v E garbage %s", s.now(), describe(em))
 			return
 		}
+		if s.collided {
+			// separate class: two senders of the session share a stream id, the receiver cannot
+			// tell their frames apart
+			if r.IsKnown(sigCollision) {
+				r.NoteKnown(sigCollision)
+				s.anyTaint = true
+				return
+			}
+			r.Fail("c41-not-sent", sigCollision, "receiver emitted a packet that is not byte-identical to any valid packet sent, without any frame lost, duplicated, reordered or altered; two senders of the session were created at instants that give them the same stream id: %s", describe(em))
+			return
+		}
 		sig := "garbage"
 		if id, ok := idOf(em); ok && id >= 0 && id < len(s.pkts) {
 			q := s.pkts[id]
@@ -662,7 +729,7 @@ func (s *sim) judgeEmitted(em []byte) {
 	p.emitted++
 	r.Logf("%v E id=%d len=%d stream=%d", s.now(), p.id, len(em), p.stream)
 	st := s.strs[p.stream]
-	strict := s.mode == modeClean || st.serial == s.strictOnly
+	strict := s.mode == modeClean || st.serial == s.strictOnly || (s.mode == modeCollide && !s.collided)
 	if !strict {
 		if p.emitted > 1 {
 			r.Probe("packet-emitted-twice")
@@ -683,6 +750,7 @@ func (s *sim) judgeEmitted(em []byte) {
 }
 
 const sigLong = "clean-missing:packet-over-more-than-100-frames"
+const sigCollision = "emitted-not-sent:stream-id-collision"
 
 // missing judges the valid packets of positions [st.nextEm, upto) that the receiver passed over in a
 // strictly judged stream. Returns true when the run may go on (only listed known findings).
@@ -731,7 +799,7 @@ func (s *sim) drained() bool {
 		return false
 	}
 	for _, st := range s.strs {
-		if st.got != len(st.want) || (s.mode == modeClean && st.nextEm != len(st.expect)) {
+		if st.got != len(st.want) || (s.faultFree() && !s.collided && st.nextEm != len(st.expect)) {
 			return false
 		}
 	}
@@ -746,18 +814,25 @@ func (s *sim) sleep(d time.Duration) {
 
 func (s *sim) advanceClock() bool {
 	r := s.r
-	if s.mode == modeClean {
-		if s.drained() {
-			d := []time.Duration{time.Microsecond, 1500 * time.Millisecond, 61 * time.Second, 125 * time.Second}[r.Choice("sleep-idle", 4)]
+	if s.faultFree() {
+		// With a single stream the clock may jump arbitrarily between any two stimuli (also in the
+		// middle of a packet). With several streams it may only do so while nothing is under way:
+		// the receiver discards reassembly state of a stream that was idle for 1-2 s while other
+		// streams were busy (assumption of the clean campaign: no such hold-ups).
+		idle := s.drained()
+		if idle || s.single {
+			d := []time.Duration{time.Microsecond, 200 * time.Microsecond, 1500 * time.Millisecond, 61 * time.Second, 125 * time.Second}[r.Choice("sleep-any", 5)]
 			s.sleep(d)
 			s.lastDrain = time.Now()
 			if d > time.Second {
-				r.Probe("long-idle-gap")
+				if idle {
+					r.Probe("long-idle-gap")
+				} else {
+					r.Probe("long-stall-mid-stream")
+				}
 			}
 			return !r.Failed()
 		}
-		// Frames of one stream are never held back for as long as the receiver's reassembly
-		// clean-up interval (1 s) while other traffic flows (assumption of the clean campaign).
 		d := []time.Duration{time.Microsecond, 10 * time.Microsecond, 100 * time.Microsecond, 300 * time.Microsecond}[r.Choice("sleep", 4)]
 		if time.Since(s.lastDrain)+d < 800*time.Millisecond {
 			s.sleep(d)
@@ -780,7 +855,7 @@ func (s *sim) deliverOne() bool {
 		return true
 	}
 	i := 0
-	if s.mode != modeClean {
+	if !s.faultFree() {
 		if len(s.queue) > 1 && r.FaultChance("frame.reorder", 1, 8) {
 			i = 1 + r.Choice("reorder-idx", len(s.queue)-1)
 		}
@@ -826,7 +901,7 @@ func (s *sim) deliverOne() bool {
 	}
 	f := s.queue[i]
 	s.queue = append(s.queue[:i], s.queue[i+1:]...)
-	if s.mode != modeClean && r.FaultChance("tun.error", 1, 40) {
+	if !s.faultFree() && r.FaultChance("tun.error", 1, 40) {
 		s.tun.mu.Lock()
 		s.tun.failNxt = true
 		s.tun.mu.Unlock()
@@ -921,6 +996,10 @@ func (s *sim) script() {
 	if s.mode == modeCorrupt {
 		wG = []int{0, 1, 1, 2}[r.Choice("w-garbage", 4)]
 	}
+	if s.mode == modeCollide {
+		wP = []int{1, 2, 1, 3}[r.Choice("w-path-collide", 4)]
+	}
+	s.single = wP == 0
 	if !s.newStream(s.drawDelta()) {
 		return
 	}
@@ -972,7 +1051,7 @@ func (s *sim) script() {
 			ok = s.writePacket()
 		case 'R':
 			pw := pend[r.Choice("release-which", len(pend))]
-			ok = s.release(pw, s.mode != modeClean && r.FaultChance("net.send-error", 1, 30))
+			ok = s.release(pw, !s.faultFree() && r.FaultChance("net.send-error", 1, 30))
 		case 'D':
 			ok = s.deliverOne()
 		case 'T':
@@ -990,11 +1069,18 @@ func (s *sim) script() {
 		return
 	}
 	// everything still under way arrives (clean) or arrives/gets lost (faults)
-	if !s.drainAll(s.mode != modeClean) {
+	if !s.drainAll(!s.faultFree()) {
 		return
 	}
-	if s.mode == modeClean {
+	if s.faultFree() {
 		for _, st := range s.strs {
+			if s.collided {
+				// streams sharing a stream id: what the receiver drops is not judged, only what it emits
+				if st.nextEm != len(st.expect) {
+					r.Probe("packets-lost-after-stream-id-collision")
+				}
+				continue
+			}
 			s.checkComplete(st)
 		}
 		return
@@ -1058,6 +1144,12 @@ func (s *sim) shutdown() {
 			}
 			s.nw.remove(pw)
 			pw.done <- nil
+		}
+	}
+	for _, st := range s.strs {
+		if st.got != len(st.want) && !r.Failed() {
+			r.Fail("c41-frame-missing", "sender-lost-bytes", "stream %d: sender was given %d bytes of valid packets (never more than %d packets outstanding) but had put only %d on the wire when it ended",
+				st.serial, len(st.want), maxOutstanding, st.got)
 		}
 	}
 	if !s.nw.serverParked() {
